@@ -9,7 +9,7 @@ PKCS#8 plain and encrypted, Name) are round-tripped: dry-run length = written le
 identical, and a wrong password never opens an encrypted key."""
 from common import *
 import cryptolib as CL
-import json, base64
+import json, base64, hashlib
 
 KINDS = ["length", "integer", "int", "boolean", "bitstring", "oid", "utf8", "printable", "encint", "encoid", "time"]
 
@@ -121,6 +121,23 @@ def text_cases(c, chunkings):
         if i % 2: h[rng.randrange(len(h))] = rng.choice(b"gGxX -\x00")
         else: h = h[:-1]
         add({"kind": "hexdec", "text": bytes(h)}, {"kind": "hexdec", "text": list(h)})
+    # deterministic malformed base64: every octet value substituted at every position of a two-quantum text, the usual suspects inserted at every
+    # position, each with the chunk boundary before / after / away from the damage; '=' at every position with every boundary
+    base = b"QUJDREVG"
+    alphabet = set(b"ABCDEFGHIJKLMNOPQRSTUVWXYZabcdefghijklmnopqrstuvwxyz0123456789+/")
+    for v in range(256):
+        for pos in range(len(base)):
+            t = base[:pos] + bytes([v]) + base[pos + 1:] + b"\n"
+            for cut in sorted({0, pos, pos + 1} if c.quick else set(range(len(t)))):
+                add({"kind": "b64dec", "text": t, "chunks": "%d" % cut}, {"kind": "b64dec", "text": list(t)})
+    for v in b"-=!_.,:;*\x00\x7f\x80\xff \t\r\n":
+        for pos in range(len(base) + 1):
+            t = base[:pos] + bytes([v]) + base[pos:] + b"\n"
+            for cut in range(len(t)):
+                add({"kind": "b64dec", "text": t, "chunks": "%d" % cut}, {"kind": "b64dec", "text": list(t)})
+    for t in (b"QQ==QUJD\n", b"QQ==\nQUJD\n", b"QUI=QUJD\n", b"QUI=\nQUJD\n", b"QUJDQQ==QUJD\n", b"QQ==\n\n", b"QQ==\n=\n", b"QUJD=\n", b"QUJD==\n", b"Q===\n", b"====\n", b"=QUJ\n"):
+        for cut in range(len(t)):
+            add({"kind": "b64dec", "text": t, "chunks": "%d" % cut}, {"kind": "b64dec", "text": list(t)})
     # every octet value in each position of a two-character hex text, and inside a base64 quantum: the alphabets are exactly the standard ones
     for v in range(256):
         for t in (bytes([v, 0x34]), bytes([0x34, v]), bytes([0x61, 0x62, v, 0x39])):
@@ -138,6 +155,13 @@ def text_cases(c, chunkings):
         add({"kind": "pemtext", "text": txt, "maxlen": 100}, {"kind": "pemtext", "maxlen": 100, "badbody": True})
         big = b"-----BEGIN TEST DATA-----\n" + b"".join(base64.b64encode(rb(48)) + b"\n" for _ in range(12)) + b"-----END TEST DATA-----\n"
         add({"kind": "pemtext", "text": big, "maxlen": 100 + i}, {"kind": "pemtext", "maxlen": 100 + i, "badbody": False})
+    # PEM bodies that are not base64 of anything: characters outside the alphabet (also at a quantum boundary), data after the padded block,
+    # a foreign END line inside the body
+    for body in (b"QUJD-REVG\n", b"QUJD-!!!!\n", b"QUJD\n-\n", b"QUJD\n-QUJD\n", b"-QUJD\n", b"QUJD-\n", b"QQ==\nQUJD\n", b"QUI=\nQUJD\n", b"QUJD\nQQ==\nQUJD\n", b"QQ==QUJD\n",
+                 b"QUJD\n-----END OTHER DATA-----\nQUJD\n", b"QUJD\n-----END TEST DATA----\n", b"QUJD!\n", b"!QUJD\n", b"QUJ\n", b"QUJDR\n", b"QUJD\nQ\n", b"Q=JD\n", b"QU=D\n"):
+        add({"kind": "pemtext", "text": b"-----BEGIN TEST DATA-----\n" + body + b"-----END TEST DATA-----\n", "maxlen": 100}, {"kind": "pemtext", "maxlen": 100, "badbody": True})
+    for body, data in ((b"QUJD\n", b"ABC"), (b"QUJD\r\n", b"ABC"), (b"QUJDREVG\nQQ==\n", b"ABCDEFA"), (b"QUJD\nQUI=\n", b"ABCAB"), (b"QQ==\n", b"A")):
+        add({"kind": "pemtext", "text": b"-----BEGIN TEST DATA-----\n" + body + b"-----END TEST DATA-----\n", "maxlen": 100}, {"kind": "pemtext", "maxlen": 100, "badbody": False, "data": list(data), "good": True})
     return lines, cases
 
 
@@ -169,7 +193,8 @@ def body():
             if problems:
                 c.violation(key, "; ".join(problems), {"line": line, "library": ev})
             continue
-        key = "c14:text:%s:%s" % (case["kind"], (line.get("text") or line.get("data") or "")[:40] + ":" + str(line.get("chunks", line.get("maxlen", ""))))
+        body = line.get("text") or line.get("data") or ""
+        key = "c14:text:%s:%s" % (case["kind"], (body if len(body) <= 40 else body[:24] + "~" + hashlib.sha1(body.encode()).hexdigest()[:12]) + ":" + str(line.get("chunks", line.get("maxlen", ""))))
         c.count(1, key)
         if san or not evs:
             c.violation(key + ":crash", "driver died / sanitizer report: %s" % san, {"line": {k: str(v)[:200] for k, v in line.items()}})
@@ -179,7 +204,7 @@ def body():
         j.update(rc=ev["rc"], out=ev.get("out", []), text=case.get("text", ev.get("text", [])), wrc=ev.get("wrc", 1), written=ev.get("written", 0), body=ev.get("body", []))
         if case["kind"] == "b64enc":
             j["text"] = ev.get("text", [])
-        for f, d in (("data", []), ("maxlen", 0), ("badbody", False)):
+        for f, d in (("data", []), ("maxlen", 0), ("badbody", False), ("good", False)):
             j.setdefault(f, d)
         jc.append(j)
         meta.append((key, line, ev))
